@@ -27,7 +27,8 @@ def handle (j : Json) : Json :=
       ("C09_no_false_cycle", Json.bool (monC09NoFalseCycle inp n tr o))]),
     ("all", Json.bool (monC09 inp n tr o)),
     ("cycle", ofNats cyc),
-    ("closure", ofNats (closureOf inp n tr)),
+    ("cycleGood", ofNats (cycleTasksGood inp n tr)),
+    ("closure", ofNats (closureC09 inp n tr)),
     ("cutShort", Json.bool (cutShort inp tr)),
     ("model", Json.mkObj [("halted", Json.bool (s.rpc = .halted)), ("halt", Json.str (haltStr s.halt)),
                           ("exit", toJson (exitCode s))])]
